@@ -1,13 +1,109 @@
 import Thanos.Common.Parse
+import Thanos.Model.Rules
 /-
   Line-protocol driver of the `misc` family (C45 C46 C47 C48 C49).
   One request per line, one answer per line; every line is self-contained.
+
+  C45
+    rules.match <labels> <sets>                         -> true | false
+    rules.rules <repl> <sets> <groups>                  -> groups (canonical) | -
+      labels = lab{+lab} | -        lab = hexname=hexvalue=cls      cls = p|t|x|e|n (PClass)
+      sets   = set{;set} | -        set = m{,m} | e (the empty set)
+      m      = hexname:typ:hexvalue:tbl    typ = eq|ne|re|nre
+               tbl = xhexv{+xhexv} | -   (the values of this op line — "" is a bare x — on which the anchored regex matches)
+      repl   = hexname{,hexname} | -
+      groups = group{|group} | -    group = hexfile/hexname{/rule}
+      rule   = kind:hexname:hexquery:dur:state:lastEval:labels      kind = a|r
+      answer: same group format, labels as hexname=hexvalue
 -/
 open Thanos Thanos.Parse
 
 namespace Thanos.Driver.Misc
 
+/-- which loop `matches` has now (tied by the regenerated fact `rulesMatchesReturns`,
+    obligation `C45_code_loop_fact` in Props/C45.lean): the repaired one -/
+def rulesFixed : Bool := true
+/-- does `matches` parse every label value on a template of its own (tied by `rulesMatchesTemplateScope`) -/
+def rulesFresh : Bool := true
+
+def hexS (s : String) : String := hexEncode s.toUTF8.toList
+
+def parseLabel (s : String) : Option Rules.Label :=
+  match splitChar '=' s with
+  | [n, v, t] => do
+    let n ← hexString? n
+    let v ← hexString? v
+    let t ← match t with
+      | "p" => some Rules.PClass.plain | "t" => some .templ | "x" => some .err
+      | "e" => some .emptyText | "n" => some .emptyOther | _ => none
+    pure { name := n, value := v, cls := t }
+  | _ => none
+
+def parseLabels (s : String) : Option (List Rules.Label) := (listOf '+' s).mapM parseLabel
+
+def parseMatcher (s : String) : Option Rules.Matcher :=
+  match splitChar ':' s with
+  | [n, t, v, tbl] => do
+    let n ← hexString? n
+    let v ← hexString? v
+    let tbl ← (listOf '+' tbl).mapM fun e =>
+      match e.toList with
+      | 'x' :: [] => some ""
+      | 'x' :: rest => hexString? (String.ofList rest)
+      | _ => none
+    match t with
+    | "eq" => pure { name := n, pred := fun x => x == v }
+    | "ne" => pure { name := n, pred := fun x => x != v }
+    | "re" => pure { name := n, pred := fun x => tbl.contains x }
+    | "nre" => pure { name := n, pred := fun x => !tbl.contains x }
+    | _ => none
+  | _ => none
+
+def parseSet (s : String) : Option (List Rules.Matcher) :=
+  if s = "e" then some [] else (listOf ',' s).mapM parseMatcher
+
+def parseSets (s : String) : Option (List (List Rules.Matcher)) := (listOf ';' s).mapM parseSet
+
+def parseRule (s : String) : Option Rules.Rule :=
+  match splitChar ':' s with
+  | [k, n, q, d, st, le, ls] => do
+    let k ← if k = "a" then some Rules.Kind.alert else if k = "r" then some Rules.Kind.recording else none
+    let n ← hexString? n
+    let q ← hexString? q
+    let d ← parseInt? d
+    let st ← parseNat? st
+    let le ← parseInt? le
+    let ls ← parseLabels ls
+    pure { kind := k, name := n, query := q, dur := d, state := st, lastEval := le, labels := ls }
+  | _ => none
+
+def parseGroup (s : String) : Option Rules.Group :=
+  match splitChar '/' s with
+  | f :: n :: rs => do
+    let f ← hexString? f
+    let n ← hexString? n
+    let rs ← rs.mapM parseRule
+    pure { file := f, name := n, rules := rs }
+  | _ => none
+
+def showRule (r : Rules.Rule) : String :=
+  let k := match r.kind with | .alert => "a" | .recording => "r"
+  let ls := joinWith "+" (r.labels.map fun l => hexS l.name ++ "=" ++ hexS l.value)
+  s!"{k}:{hexS r.name}:{hexS r.query}:{r.dur}:{r.state}:{r.lastEval}:{ls}"
+
+def showGroup (g : Rules.Group) : String :=
+  "/".intercalate (hexS g.file :: hexS g.name :: g.rules.map showRule)
+
 def handle : List String → String
+  | ["rules.match", ls, sets] =>
+    match parseLabels ls, parseSets sets with
+    | some ls, some sets => toString (Rules.codeMatches rulesFixed rulesFresh sets ls)
+    | _, _ => "bad-op"
+  | ["rules.rules", repl, sets, groups] =>
+    match (listOf ',' repl).mapM hexString?, parseSets sets, (listOf '|' groups).mapM parseGroup with
+    | some repl, some sets, some gs =>
+      joinWith "|" ((Rules.rulesPipeline rulesFixed rulesFresh repl sets gs).map showGroup)
+    | _, _, _ => "bad-op"
   | _ => "bad-op"
 
 end Thanos.Driver.Misc
